@@ -229,7 +229,11 @@ def oracle_seq(ops, kind):
 
 
 def cmp_answers(a, b):
-    """spec part and final balance always; internal part (capacity, stale cells, allocator counters) when both have it"""
+    """spec part and final balance always; internal part (capacity, stale cells, allocator counters) when both have it.
+    `ub:<event>` is the model saying that the history performs an out-of-bounds access (undefined behaviour: it predicts
+    nothing about such a run; IMPL is still judged against the reference)"""
+    if a.startswith('ub:') or b.startswith('ub:'):
+        return True
     pa, pb = a.split(' # '), b.split(' # ')
     if len(pa) != 3 or len(pb) != 3:
         return a == b
@@ -240,6 +244,8 @@ def cmp_answers(a, b):
 
 def cmp_contents(a, b):
     """client-visible part only: sizes, elements, has_value / active alternative after every step"""
+    if a.startswith('ub:') or b.startswith('ub:'):
+        return True
     pa, pb = a.split(' # '), b.split(' # ')
     if len(pa) != 3 or len(pb) != 3:
         return a == b
@@ -248,6 +254,8 @@ def cmp_contents(a, b):
 
 def cmp_ledger(a, b):
     """end-of-history balance only: blocks not freed, element objects not destroyed, lifetime / free errors"""
+    if a.startswith('ub:') or b.startswith('ub:'):
+        return True
     pa, pb = a.split(' # '), b.split(' # ')
     if len(pa) != 3 or len(pb) != 3:
         return a == b
@@ -719,43 +727,52 @@ def gen(tier, rng):
     n2 = 0
     for ops in enum_histories(4 if quick else 5, two=True, resizes=(0, 2, 6), sized=(0, 3), variadic=(3,)):
         n2 += 1
-        yield from cases_for('vec', 'double' if n2 % 2 else 'int', ops, ['exhaustive-2obj'])
+        if quick or n2 % 3 == 0:     # length 5 on two objects: every third history (3.1e5 otherwise)
+            yield from cases_for('vec', 'double' if n2 % 2 else 'int', ops, ['exhaustive-2obj' if quick else 'sampled-2obj'])
     for k in range(300 if quick else 4000):
         L = rng.choice([6, 7, 12, 30, 80, 200])
         yield from cases_for('vec', rng.choice(['int', 'double']), rand_history(rng, L), ['random'])
         yield from cases_for('vec', rng.choice(['int', 'double']), rand_domain_history(rng, L), ['random-domain'])
     # utl::static_vector<T,4> ---------------------------------------------------------------------
     for L in ([5] if quick else [5, 6]):
+        n1 = 0
         for ops in enum_histories(L, two=False, kind='svec', resizes=(0, 1, 3, 4, 6), sized=(0, 2, 4, 7), variadic=(2, 4)):
-            yield from cases_for('svec', 'int', ops, ['exhaustive-1obj'])
+            n1 += 1
+            if L == 5 or n1 % 3 == 0:
+                yield from cases_for('svec', 'int', ops, ['exhaustive-1obj' if L == 5 else 'sampled-1obj'])
     n2 = 0
     for ops in enum_histories(4 if quick else 5, two=True, kind='svec', resizes=(0, 2, 5), sized=(3, 7), variadic=(3,)):
         n2 += 1
-        yield from cases_for('svec', 'double' if n2 % 2 else 'int', ops, ['exhaustive-2obj'])
+        if quick or n2 % 4 == 0:
+            yield from cases_for('svec', 'double' if n2 % 2 else 'int', ops, ['exhaustive-2obj' if quick else 'sampled-2obj'])
     for k in range(300 if quick else 4000):
         L = rng.choice([6, 7, 12, 30, 80, 200])
         yield from cases_for('svec', rng.choice(['int', 'double']), rand_history(rng, L, cap=SVEC_CAP, maxn=7, vmax=4), ['random'])
         yield from cases_for('svec', rng.choice(['int', 'double']), rand_domain_history(rng, L, cap=SVEC_CAP, vmax=4), ['random-domain'])
     # nmtools::small_vector<T,4> over utl::either<utl::static_vector, utl::vector> ------------------
     for L in ([5] if quick else [5, 6]):
+        n1 = 0
         for ops in enum_histories(L, two=False, kind='small', resizes=(0, 1, 3, 4, 6), sized=(0, 2, 4, 6), variadic=(3, 5), nopushat=True):
-            yield from cases_for('small', 'int', ops, ['exhaustive-1obj'])
+            n1 += 1
+            if L == 5 or n1 % 3 == 0:
+                yield from cases_for('small', 'int', ops, ['exhaustive-1obj' if L == 5 else 'sampled-1obj'])
     n2 = 0
     for ops in enum_histories(4 if quick else 5, two=True, kind='small', resizes=(0, 2, 5), sized=(3, 5), variadic=(5,), nopushat=True):
         n2 += 1
-        yield from cases_for('small', 'double' if n2 % 2 else 'int', ops, ['exhaustive-2obj'])
+        if quick or n2 % 4 == 0:
+            yield from cases_for('small', 'double' if n2 % 2 else 'int', ops, ['exhaustive-2obj' if quick else 'sampled-2obj'])
     for k in range(300 if quick else 4000):
         L = rng.choice([6, 7, 12, 30, 80, 200])
         yield from cases_for('small', rng.choice(['int', 'double']), [o for o in rand_history(rng, L, maxn=7, vmax=6) if o[0] != 'pushAt'], ['random'])
         yield from cases_for('small', rng.choice(['int', 'double']), rand_domain_history(rng, L, vmax=4, maxlen=SMALL_DIM), ['random-domain'])
     # utl::array<T,3> -----------------------------------------------------------------------------
     n2 = 0
-    for ops in enum_histories(4 if quick else 6, two=True, kind='arr', resizes=(), sized=(), variadic=(2, 3), nopush=True):
+    for ops in enum_histories(4 if quick else 5, two=True, kind='arr', resizes=(), sized=(), variadic=(2, 3), nopush=True):
         n2 += 1
         yield from cases_for('arr', 'double' if n2 % 2 else 'int', ops, ['exhaustive-2obj'])
     # utl::tuple<T,T,T> / utl::tuplev2<T,T,T> ------------------------------------------------------
     n2 = 0
-    for ops in enum_histories(4 if quick else 6, two=True, kind='tuple', resizes=(), sized=(), variadic=(3,), nopush=True):
+    for ops in enum_histories(4 if quick else 5, two=True, kind='tuple', resizes=(), sized=(), variadic=(3,), nopush=True):
         n2 += 1
         yield from cases_for('tuple' if n2 % 2 else 'tuplev2', ('int', 'tracked', 'double')[n2 % 3], ops, ['exhaustive-2obj'])
 
